@@ -145,6 +145,7 @@ pub struct CanaryReport {
     pub clock_pid_live: bool,
     pub fork_server_live: bool,
     pub tid_seam_live: bool,
+    pub memstat_seam_live: bool,
     pub distinct_outputs: usize,
     /// "0,1;0,2,1;…" per canary key, as the real process printed it
     pub orders_per_key: Vec<String>,
@@ -162,6 +163,7 @@ pub fn exec_canary(args: &Args) -> CanaryReport {
         clock_pid_live: false,
         fork_server_live: false,
         tid_seam_live: false,
+        memstat_seam_live: false,
         distinct_outputs: 0,
         orders_per_key: vec![],
         note: String::new(),
@@ -253,6 +255,7 @@ pub fn exec_canary(args: &Args) -> CanaryReport {
     ident.clock_base = 1_234_567_890;
     ident.clock_step_ns = 777;
     ident.pid = 31_337;
+    ident.rss_kib = 123_456;
     if let Ok((o, log)) = sim_exec::launch_program(&env, &args.canary, &[], &dir, &dir, Colour::NoColor, &ident, "ci") {
         let text = String::from_utf8_lossy(&o.stdout).into_owned();
         report.clock_pid_live = text.contains("wall=1234567890")
@@ -260,6 +263,7 @@ pub fn exec_canary(args: &Args) -> CanaryReport {
             && text.contains("pid=31337")
             && log.clock_reads == 3;
         report.tid_seam_live = text.contains("tid=31337");
+        report.memstat_seam_live = text.contains("VmRSS:=123456=kB");
     }
     let _ = fs::remove_dir_all(&dir);
     report
@@ -729,6 +733,7 @@ pub fn run_main(args: &Args) -> i32 {
             "exec_clock_and_pid_seam_live": canary.clock_pid_live,
             "fork_server_seams_live": canary.fork_server_live,
             "thread_id_seam_live": canary.tid_seam_live,
+            "memory_statistics_seam_live": canary.memstat_seam_live,
             "inproc_entropy_seam_live": ip_live,
             "inproc_entropy_seam_repeatable": ip_repeatable,
             "inproc_canary_distinct_outputs": ip_distinct,
